@@ -97,6 +97,7 @@ def generate() -> Tuple[str, Dict[str, Any]]:
     tree = ast.parse(src)
     defs: List[Tuple[str, str, str, str, str]] = []     # (doc, name, params, type, body)
     info: Dict[str, Any] = {'items': []}
+    errors: List[str] = []
 
     def add(doc: str, name: str, params: List[str], typ: str, body: str, bools: Tuple[str, ...] = ()) -> None:
         ps = ' '.join(f'({p} : {"Bool" if p in bools else "Int"})' for p in params)
@@ -122,241 +123,286 @@ def generate() -> Tuple[str, Dict[str, Any]]:
                 if len(a.targets) == 1 and isinstance(a.targets[0], ast.Name)]
 
     # --- _SFTPParallelIO._start_tasks --------------------------------------------------------------
-    st = T.find_def(tree, '_SFTPParallelIO._start_tasks')
-    loops = _walk_sorted(st, ast.While)
-    if len(loops) != 1:
-        raise T.Untranslatable('_start_tasks: one while loop expected')
-    loop = loops[0]
-    mins = [a for a in name_assigns(loop) if isinstance(a.value, ast.Call) and
-            isinstance(a.value.func, ast.Name) and a.value.func.id == 'min']
-    if len(mins) != 1:
-        raise T.Untranslatable('_start_tasks: one `size = min(...)` expected')
-    size_assign = mins[0]
-    sv = size_assign.targets[0].id      # type: ignore
-    env = {'self._bytes_left': 'bytes_left', 'len(self._pending)': 'n_pending',
-           'self._max_requests': 'max_requests', 'self._block_size': 'block_size',
-           'self._offset': 'offset', sv: 'size'}
-    add('`while self._bytes_left and len(self._pending) < self._max_requests`', 'startCond',
-        ['bytes_left', 'n_pending', 'max_requests'], 'Prop', cond(loop.test, env))
-    add('`size = min(self._bytes_left, self._block_size)`', 'blockSize', ['bytes_left', 'block_size'], 'Int',
-        expr(size_assign.value, env))
-    call = _call_named(loop, '_start_task')
-    if len(call.args) != 2:
-        raise T.Untranslatable('_start_task(offset, size) expected')
-    add('offset handed to `_start_task` by `_start_tasks`', 'taskOffset', ['offset', 'size'], 'Int',
-        expr(call.args[0], env))
-    add('size handed to `_start_task` by `_start_tasks`', 'taskSize', ['offset', 'size'], 'Int',
-        expr(call.args[1], env))
-    aug_off, aug_left = _aug(loop, 'self._offset'), _aug(loop, 'self._bytes_left')
-    add('`self._offset += size`', 'nextOffset', ['offset', 'size'], 'Int', expr(_aug_expr(aug_off), env))
-    add('`self._bytes_left -= size`', 'nextLeft', ['bytes_left', 'size'], 'Int', expr(_aug_expr(aug_left), env))
-    # the block size is computed first and the task is created before `_offset` moves; the two counter
-    # updates are independent of each other
-    if not (size_assign.lineno < call.lineno < aug_off.lineno and size_assign.lineno < aug_left.lineno):
-        raise T.Untranslatable('_start_tasks: unexpected statement order')
-    if len(_walk_sorted(loop, ast.AugAssign)) != 2:
-        raise T.Untranslatable('_start_tasks: unexpected extra update in the loop')
+    try:
+        st = T.find_def(tree, '_SFTPParallelIO._start_tasks')
+        loops = _walk_sorted(st, ast.While)
+        if len(loops) != 1:
+            raise T.Untranslatable('_start_tasks: one while loop expected')
+        loop = loops[0]
+        mins = [a for a in name_assigns(loop) if isinstance(a.value, ast.Call) and
+                isinstance(a.value.func, ast.Name) and a.value.func.id == 'min']
+        if len(mins) != 1:
+            raise T.Untranslatable('_start_tasks: one `size = min(...)` expected')
+        size_assign = mins[0]
+        sv = size_assign.targets[0].id      # type: ignore
+        env = {'self._bytes_left': 'bytes_left', 'len(self._pending)': 'n_pending',
+               'self._max_requests': 'max_requests', 'self._block_size': 'block_size',
+               'self._offset': 'offset', sv: 'size'}
+        add('`while self._bytes_left and len(self._pending) < self._max_requests`', 'startCond',
+            ['bytes_left', 'n_pending', 'max_requests'], 'Prop', cond(loop.test, env))
+        add('`size = min(self._bytes_left, self._block_size)`', 'blockSize', ['bytes_left', 'block_size'], 'Int',
+            expr(size_assign.value, env))
+        call = _call_named(loop, '_start_task')
+        if len(call.args) != 2:
+            raise T.Untranslatable('_start_task(offset, size) expected')
+        add('offset handed to `_start_task` by `_start_tasks`', 'taskOffset', ['offset', 'size'], 'Int',
+            expr(call.args[0], env))
+        add('size handed to `_start_task` by `_start_tasks`', 'taskSize', ['offset', 'size'], 'Int',
+            expr(call.args[1], env))
+        aug_off, aug_left = _aug(loop, 'self._offset'), _aug(loop, 'self._bytes_left')
+        add('`self._offset += size`', 'nextOffset', ['offset', 'size'], 'Int', expr(_aug_expr(aug_off), env))
+        add('`self._bytes_left -= size`', 'nextLeft', ['bytes_left', 'size'], 'Int', expr(_aug_expr(aug_left), env))
+        # the block size is computed first and the task is created before `_offset` moves; the two counter
+        # updates are independent of each other
+        if not (size_assign.lineno < call.lineno < aug_off.lineno and size_assign.lineno < aug_left.lineno):
+            raise T.Untranslatable('_start_tasks: unexpected statement order')
+        if len(_walk_sorted(loop, ast.AugAssign)) != 2:
+            raise T.Untranslatable('_start_tasks: unexpected extra update in the loop')
+
+    except Exception as e:      # keep going: the file is written from this tree, then the error is raised
+        errors.append('_SFTPParallelIO._start_tasks' + ': ' + str(e))
 
     # --- _SFTPParallelIO.iter ----------------------------------------------------------------------
-    it = T.find_def(tree, '_SFTPParallelIO.iter')
-    unpack = [a for a in _walk_sorted(it, ast.Assign)
-              if isinstance(a.targets[0], ast.Tuple) and isinstance(a.value, ast.Call) and
-              isinstance(a.value.func, ast.Attribute) and a.value.func.attr == 'result']
-    if len(unpack) != 1 or len(unpack[0].targets[0].elts) != 4:       # type: ignore
-        raise T.Untranslatable('iter: `offset, size, count, result = task.result()` expected')
-    vo, vs, vc, _vr = [ast.unparse(e) for e in unpack[0].targets[0].elts]     # type: ignore
-    st_ret = _walk_sorted(T.find_def(tree, '_SFTPParallelIO._start_task'), ast.Return)
-    if len(st_ret) != 1 or not isinstance(st_ret[0].value, ast.Tuple) or \
-            [ast.unparse(e) for e in st_ret[0].value.elts][:2] != params(T.find_def(tree, '_SFTPParallelIO._start_task')):
-        raise T.Untranslatable('_start_task: `return offset, size, count, result` expected')
-    env = {vc: 'count', vs: 'size', vo: 'offset'}
-    conts = [i for i in _walk_sorted(it, ast.If)
-             if any(isinstance(c.func, ast.Attribute) and c.func.attr == '_start_task'
-                    for c in _walk_sorted(i, ast.Call))]
-    if len(conts) != 1:
-        raise T.Untranslatable('iter: one conditional re-request expected')
-    cont = conts[0]
-    add('`if count and count < size` (re-request after a short reply)', 'contCond', ['count', 'size'], 'Prop',
-        cond(cont.test, env))
-    call = _call_named(cont, '_start_task')
-    add('offset of the re-request', 'contOffset', ['offset', 'size', 'count'], 'Int', expr(call.args[0], env))
-    add('size of the re-request', 'contSize', ['offset', 'size', 'count'], 'Int', expr(call.args[1], env))
+    try:
+        it = T.find_def(tree, '_SFTPParallelIO.iter')
+        unpack = [a for a in _walk_sorted(it, ast.Assign)
+                  if isinstance(a.targets[0], ast.Tuple) and isinstance(a.value, ast.Call) and
+                  isinstance(a.value.func, ast.Attribute) and a.value.func.attr == 'result']
+        if len(unpack) != 1 or len(unpack[0].targets[0].elts) != 4:       # type: ignore
+            raise T.Untranslatable('iter: `offset, size, count, result = task.result()` expected')
+        vo, vs, vc, _vr = [ast.unparse(e) for e in unpack[0].targets[0].elts]     # type: ignore
+        st_ret = _walk_sorted(T.find_def(tree, '_SFTPParallelIO._start_task'), ast.Return)
+        if len(st_ret) != 1 or not isinstance(st_ret[0].value, ast.Tuple) or \
+                [ast.unparse(e) for e in st_ret[0].value.elts][:2] != params(T.find_def(tree, '_SFTPParallelIO._start_task')):
+            raise T.Untranslatable('_start_task: `return offset, size, count, result` expected')
+        env = {vc: 'count', vs: 'size', vo: 'offset'}
+        conts = [i for i in _walk_sorted(it, ast.If)
+                 if any(isinstance(c.func, ast.Attribute) and c.func.attr == '_start_task'
+                        for c in _walk_sorted(i, ast.Call))]
+        if len(conts) != 1:
+            raise T.Untranslatable('iter: one conditional re-request expected')
+        cont = conts[0]
+        add('`if count and count < size` (re-request after a short reply)', 'contCond', ['count', 'size'], 'Prop',
+            cond(cont.test, env))
+        call = _call_named(cont, '_start_task')
+        add('offset of the re-request', 'contOffset', ['offset', 'size', 'count'], 'Int', expr(call.args[0], env))
+        add('size of the re-request', 'contSize', ['offset', 'size', 'count'], 'Int', expr(call.args[1], env))
+
+    except Exception as e:      # keep going: the file is written from this tree, then the error is raised
+        errors.append('_SFTPParallelIO.iter' + ': ' + str(e))
 
     # --- _SFTPFileReader.run -----------------------------------------------------------------------
-    rr = T.find_def(tree, '_SFTPFileReader.run')
-    fors = _walk_sorted(rr, ast.AsyncFor)
-    if len(fors) != 1 or ast.unparse(fors[0].iter) != 'self.iter()' or not isinstance(fors[0].target, ast.Tuple) \
-            or len(fors[0].target.elts) != 2:
-        raise T.Untranslatable('_SFTPFileReader.run: `async for offset, data in self.iter()` expected')
-    vo, vd = [ast.unparse(e) for e in fors[0].target.elts]
-    bufs = [a for a in name_assigns(rr) if ast.unparse(a.value) == 'bytearray()']
-    loc = name_assigns(fors[0])
-    if len(bufs) != 1 or len(loc) != 2:
-        raise T.Untranslatable('_SFTPFileReader.run: result buffer / pos / pad not recognised')
-    vres = bufs[0].targets[0].id       # type: ignore
-    vpos, vpad = loc[0].targets[0].id, loc[1].targets[0].id        # type: ignore
-    env = {vo: 'offset', 'self._start': 'start', vpos: 'pos', f'len({vres})': 'len_result',
-           vpad: 'pad', f'len({vd})': 'len_data'}
-    add('`pos = offset - self._start`', 'readerPos', ['offset', 'start'], 'Int', expr(loc[0].value, env))
-    add('`pad = pos - len(result)`', 'readerPad', ['pos', 'len_result'], 'Int', expr(loc[1].value, env))
-    pad_ifs = _walk_sorted(fors[0], ast.If)
-    if len(pad_ifs) != 1 or pad_ifs[0].orelse or len(pad_ifs[0].body) != 1 or \
-            ast.unparse(pad_ifs[0].body[0]) not in (f"{vres} += {vpad} * b'\\x00'", f"{vres} += b'\\x00' * {vpad}"):
-        raise T.Untranslatable('_SFTPFileReader.run: zero padding `result += pad * b"\\0"` expected')
-    add('`if pad > 0` (zero-fill up to pos)', 'readerPadCond', ['pad'], 'Prop', cond(pad_ifs[0].test, env))
-    subs = [a for a in _walk_sorted(rr, ast.Assign) if isinstance(a.targets[0], ast.Subscript)]
-    if len(subs) != 1 or ast.unparse(subs[0].targets[0].value) != vres or ast.unparse(subs[0].value) != vd \
-            or subs[0].lineno < pad_ifs[0].lineno:
-        raise T.Untranslatable('_SFTPFileReader.run: `result[a:b] = data` after the padding expected')
-    lo, hi = _slice_bounds(subs[0].targets[0])
-    add('lower bound of `result[pos:pos+len(data)] = data`', 'readerLo', ['pos', 'len_data'], 'Int', expr(lo, env))
-    add('upper bound of `result[pos:pos+len(data)] = data`', 'readerHi', ['pos', 'len_data'], 'Int', expr(hi, env))
+    try:
+        rr = T.find_def(tree, '_SFTPFileReader.run')
+        fors = _walk_sorted(rr, ast.AsyncFor)
+        if len(fors) != 1 or ast.unparse(fors[0].iter) != 'self.iter()' or not isinstance(fors[0].target, ast.Tuple) \
+                or len(fors[0].target.elts) != 2:
+            raise T.Untranslatable('_SFTPFileReader.run: `async for offset, data in self.iter()` expected')
+        vo, vd = [ast.unparse(e) for e in fors[0].target.elts]
+        bufs = [a for a in name_assigns(rr) if ast.unparse(a.value) == 'bytearray()']
+        loc = name_assigns(fors[0])
+        if len(bufs) != 1 or len(loc) != 2:
+            raise T.Untranslatable('_SFTPFileReader.run: result buffer / pos / pad not recognised')
+        vres = bufs[0].targets[0].id       # type: ignore
+        vpos, vpad = loc[0].targets[0].id, loc[1].targets[0].id        # type: ignore
+        env = {vo: 'offset', 'self._start': 'start', vpos: 'pos', f'len({vres})': 'len_result',
+               vpad: 'pad', f'len({vd})': 'len_data'}
+        add('`pos = offset - self._start`', 'readerPos', ['offset', 'start'], 'Int', expr(loc[0].value, env))
+        add('`pad = pos - len(result)`', 'readerPad', ['pos', 'len_result'], 'Int', expr(loc[1].value, env))
+        pad_ifs = _walk_sorted(fors[0], ast.If)
+        if len(pad_ifs) != 1 or pad_ifs[0].orelse or len(pad_ifs[0].body) != 1 or \
+                ast.unparse(pad_ifs[0].body[0]) not in (f"{vres} += {vpad} * b'\\x00'", f"{vres} += b'\\x00' * {vpad}"):
+            raise T.Untranslatable('_SFTPFileReader.run: zero padding `result += pad * b"\\0"` expected')
+        add('`if pad > 0` (zero-fill up to pos)', 'readerPadCond', ['pad'], 'Prop', cond(pad_ifs[0].test, env))
+        subs = [a for a in _walk_sorted(rr, ast.Assign) if isinstance(a.targets[0], ast.Subscript)]
+        if len(subs) != 1 or ast.unparse(subs[0].targets[0].value) != vres or ast.unparse(subs[0].value) != vd \
+                or subs[0].lineno < pad_ifs[0].lineno:
+            raise T.Untranslatable('_SFTPFileReader.run: `result[a:b] = data` after the padding expected')
+        lo, hi = _slice_bounds(subs[0].targets[0])
+        add('lower bound of `result[pos:pos+len(data)] = data`', 'readerLo', ['pos', 'len_data'], 'Int', expr(lo, env))
+        add('upper bound of `result[pos:pos+len(data)] = data`', 'readerHi', ['pos', 'len_data'], 'Int', expr(hi, env))
+
+    except Exception as e:      # keep going: the file is written from this tree, then the error is raised
+        errors.append('_SFTPFileReader.run' + ': ' + str(e))
 
     # --- _SFTPFileWriter.run_task ------------------------------------------------------------------
-    wr = T.find_def(tree, '_SFTPFileWriter.run_task')
-    if len(params(wr)) != 2:
-        raise T.Untranslatable('_SFTPFileWriter.run_task(offset, size) expected')
-    po, ps = params(wr)
-    loc = name_assigns(wr)
-    if len(loc) != 1:
-        raise T.Untranslatable('_SFTPFileWriter.run_task: one local (pos) expected')
-    vpos = loc[0].targets[0].id        # type: ignore
-    env = {po: 'offset', 'self._start': 'start', vpos: 'pos', ps: 'size'}
-    add('`pos = offset - self._start`', 'writerPos', ['offset', 'start'], 'Int', expr(loc[0].value, env))
-    wcall = _call_named(wr, 'write')
-    if len(wcall.args) != 3 or ast.unparse(wcall.args[1]) != po or not isinstance(wcall.args[2], ast.Subscript) \
-            or ast.unparse(wcall.args[2].value) != 'self._data' or ast.unparse(wcall.args[0]) != 'self._handle':
-        raise T.Untranslatable('_SFTPFileWriter.run_task: write(handle, offset, self._data[a:b]) expected')
-    lo, hi = _slice_bounds(wcall.args[2])
-    add('lower bound of `self._data[pos:pos+size]`', 'writerLo', ['pos', 'size'], 'Int', expr(lo, env))
-    add('upper bound of `self._data[pos:pos+size]`', 'writerHi', ['pos', 'size'], 'Int', expr(hi, env))
-    rets = _walk_sorted(wr, ast.Return)
-    if len(rets) != 1 or not isinstance(rets[0].value, ast.Tuple) or len(rets[0].value.elts) != 2:
-        raise T.Untranslatable('_SFTPFileWriter.run_task: `return count, result` expected')
-    add('count reported by a finished write', 'writerCount', ['size'], 'Int', expr(rets[0].value.elts[0], env))
+    try:
+        wr = T.find_def(tree, '_SFTPFileWriter.run_task')
+        if len(params(wr)) != 2:
+            raise T.Untranslatable('_SFTPFileWriter.run_task(offset, size) expected')
+        po, ps = params(wr)
+        loc = name_assigns(wr)
+        if len(loc) != 1:
+            raise T.Untranslatable('_SFTPFileWriter.run_task: one local (pos) expected')
+        vpos = loc[0].targets[0].id        # type: ignore
+        env = {po: 'offset', 'self._start': 'start', vpos: 'pos', ps: 'size'}
+        add('`pos = offset - self._start`', 'writerPos', ['offset', 'start'], 'Int', expr(loc[0].value, env))
+        wcall = _call_named(wr, 'write')
+        if len(wcall.args) != 3 or ast.unparse(wcall.args[1]) != po or not isinstance(wcall.args[2], ast.Subscript) \
+                or ast.unparse(wcall.args[2].value) != 'self._data' or ast.unparse(wcall.args[0]) != 'self._handle':
+            raise T.Untranslatable('_SFTPFileWriter.run_task: write(handle, offset, self._data[a:b]) expected')
+        lo, hi = _slice_bounds(wcall.args[2])
+        add('lower bound of `self._data[pos:pos+size]`', 'writerLo', ['pos', 'size'], 'Int', expr(lo, env))
+        add('upper bound of `self._data[pos:pos+size]`', 'writerHi', ['pos', 'size'], 'Int', expr(hi, env))
+        rets = _walk_sorted(wr, ast.Return)
+        if len(rets) != 1 or not isinstance(rets[0].value, ast.Tuple) or len(rets[0].value.elts) != 2:
+            raise T.Untranslatable('_SFTPFileWriter.run_task: `return count, result` expected')
+        add('count reported by a finished write', 'writerCount', ['size'], 'Int', expr(rets[0].value.elts[0], env))
+
+    except Exception as e:      # keep going: the file is written from this tree, then the error is raised
+        errors.append('_SFTPFileWriter.run_task' + ': ' + str(e))
 
     # --- _SFTPFileCopier ---------------------------------------------------------------------------
-    cr = T.find_def(tree, '_SFTPFileCopier.run')
-    env = {'self._bytes_copied': 'bytes_copied', 'self._total_bytes': 'total_bytes', 'self._sparse': '?sparse'}
-    chk = _if_with(cr, 'self._bytes_copied !=')
-    if not any(isinstance(s, ast.Raise) for s in ast.walk(chk)):
-        raise T.Untranslatable('_SFTPFileCopier.run: the size check no longer raises')
-    add('`if self._bytes_copied != self._total_bytes and not self._sparse: raise`', 'sizeCheckFails',
-        ['bytes_copied', 'total_bytes', 'sparse'], 'Prop', cond(chk.test, env), bools=('sparse',))
-    ct = T.find_def(tree, '_SFTPFileCopier.run_task')
-    if len(params(ct)) != 2:
-        raise T.Untranslatable('_SFTPFileCopier.run_task(offset, size) expected')
-    po, ps = params(ct)
-    rd = _call_named(ct, 'read')
-    wc = _call_named(ct, 'write')
-    datas = [a for a in name_assigns(ct) if isinstance(a.value, ast.Await) and a.value.value is rd]
-    if len(datas) != 1:
-        raise T.Untranslatable('_SFTPFileCopier.run_task: `data = await self._src.read(...)` expected')
-    vd = datas[0].targets[0].id        # type: ignore
-    lens = {a.targets[0].id for a in name_assigns(ct) if ast.unparse(a.value) == f'len({vd})'}   # type: ignore
-    rets = _walk_sorted(ct, ast.Return)
-    if len(rets) != 1 or not isinstance(rets[0].value, ast.Tuple) or len(rets[0].value.elts) != 2 or \
-            any(ast.unparse(e) not in lens | {f'len({vd})'} for e in rets[0].value.elts):
-        raise T.Untranslatable('_SFTPFileCopier.run_task: `return len(data), len(data)` expected')
-    if [ast.unparse(a) for a in rd.args] != [ps, po] or [ast.unparse(a) for a in wc.args] != [vd, po] or \
-            ast.unparse(rd.func) != 'self._src.read' or ast.unparse(wc.func) != 'self._dst.write' or \
-            rd.lineno > wc.lineno:
-        raise T.Untranslatable('_SFTPFileCopier.run_task: read(size, offset) then write(data, offset) expected')
-    # the copier counts what the iterator reports: `self._bytes_copied += datalen`
-    for_iters = [f for f in _walk_sorted(cr, ast.AsyncFor) if ast.unparse(f.iter) == 'self.iter()']
-    if len(for_iters) != 1 or not isinstance(for_iters[0].target, ast.Tuple) or len(for_iters[0].target.elts) != 2:
-        raise T.Untranslatable('_SFTPFileCopier.run: `async for _, datalen in self.iter()` expected')
-    vlen = ast.unparse(for_iters[0].target.elts[1])
-    if ast.unparse(_aug_expr(_aug(for_iters[0], 'self._bytes_copied'))) != f'self._bytes_copied + {vlen}':
-        raise T.Untranslatable('_SFTPFileCopier.run: `self._bytes_copied += datalen` expected')
+    try:
+        cr = T.find_def(tree, '_SFTPFileCopier.run')
+        env = {'self._bytes_copied': 'bytes_copied', 'self._total_bytes': 'total_bytes', 'self._sparse': '?sparse'}
+        chk = _if_with(cr, 'self._bytes_copied !=')
+        if not any(isinstance(s, ast.Raise) for s in ast.walk(chk)):
+            raise T.Untranslatable('_SFTPFileCopier.run: the size check no longer raises')
+        add('`if self._bytes_copied != self._total_bytes and not self._sparse: raise`', 'sizeCheckFails',
+            ['bytes_copied', 'total_bytes', 'sparse'], 'Prop', cond(chk.test, env), bools=('sparse',))
+        ct = T.find_def(tree, '_SFTPFileCopier.run_task')
+        if len(params(ct)) != 2:
+            raise T.Untranslatable('_SFTPFileCopier.run_task(offset, size) expected')
+        po, ps = params(ct)
+        rd = _call_named(ct, 'read')
+        wc = _call_named(ct, 'write')
+        datas = [a for a in name_assigns(ct) if isinstance(a.value, ast.Await) and a.value.value is rd]
+        if len(datas) != 1:
+            raise T.Untranslatable('_SFTPFileCopier.run_task: `data = await self._src.read(...)` expected')
+        vd = datas[0].targets[0].id        # type: ignore
+        lens = {a.targets[0].id for a in name_assigns(ct) if ast.unparse(a.value) == f'len({vd})'}   # type: ignore
+        rets = _walk_sorted(ct, ast.Return)
+        if len(rets) != 1 or not isinstance(rets[0].value, ast.Tuple) or len(rets[0].value.elts) != 2 or \
+                any(ast.unparse(e) not in lens | {f'len({vd})'} for e in rets[0].value.elts):
+            raise T.Untranslatable('_SFTPFileCopier.run_task: `return len(data), len(data)` expected')
+        if [ast.unparse(a) for a in rd.args] != [ps, po] or [ast.unparse(a) for a in wc.args] != [vd, po] or \
+                ast.unparse(rd.func) != 'self._src.read' or ast.unparse(wc.func) != 'self._dst.write' or \
+                rd.lineno > wc.lineno:
+            raise T.Untranslatable('_SFTPFileCopier.run_task: read(size, offset) then write(data, offset) expected')
+        # the copier counts what the iterator reports: `self._bytes_copied += datalen`
+        for_iters = [f for f in _walk_sorted(cr, ast.AsyncFor) if ast.unparse(f.iter) == 'self.iter()']
+        if len(for_iters) != 1 or not isinstance(for_iters[0].target, ast.Tuple) or len(for_iters[0].target.elts) != 2:
+            raise T.Untranslatable('_SFTPFileCopier.run: `async for _, datalen in self.iter()` expected')
+        vlen = ast.unparse(for_iters[0].target.elts[1])
+        if ast.unparse(_aug_expr(_aug(for_iters[0], 'self._bytes_copied'))) != f'self._bytes_copied + {vlen}':
+            raise T.Untranslatable('_SFTPFileCopier.run: `self._bytes_copied += datalen` expected')
+
+    except Exception as e:      # keep going: the file is written from this tree, then the error is raised
+        errors.append('_SFTPFileCopier' + ': ' + str(e))
 
     # --- two optional safety steps (present or not in the tree being checked) -----------------------------
-    # (a) `_SFTPFileReader.run_task`: `if not data: raise ...` before the return
-    rt = T.find_def(tree, '_SFTPFileReader.run_task')
-    ifs = _walk_sorted(rt, ast.If)
-    if not ifs:
-        rejects = False
-    elif len(ifs) == 1 and ast.unparse(ifs[0].test) in ('not data', 'len(data) == 0') and \
-            any(isinstance(x, ast.Raise) for x in ifs[0].body) and not ifs[0].orelse:
-        rejects = True
-    else:
-        raise T.Untranslatable('_SFTPFileReader.run_task: unrecognised conditional')
-    rcall = _call_named(rt, 'read')
-    if [ast.unparse(a) for a in rcall.args] != ['self._handle', 'offset', 'size']:
-        raise T.Untranslatable('_SFTPFileReader.run_task: read(handle, offset, size) expected')
-    info['reader_rejects_empty'] = rejects
-    # (b) `_SFTPFileCopier.run`: extend a sparse destination whose source ends in a hole
-    ext_ifs = [i for i in _walk_sorted(cr, ast.If) if 'range_end' in ast.unparse(i.test)]
-    env = {'self._sparse': '?sparse', 'range_end': 'range_end', 'self._total_bytes': 'total_bytes',
-           'offset': 'offset', 'length': 'length', 'self._offset': 'offset', 'self._bytes_left': 'length'}
-    if not ext_ifs:
-        extends = False
-        if 'range_end' in ast.unparse(cr):
-            raise T.Untranslatable('_SFTPFileCopier.run: range_end is computed but not used in a condition')
-        add('(no such step in this tree)', 'extendCond', ['sparse', 'range_end', 'total_bytes'], 'Prop', 'False',
-            bools=('sparse',))
-        add('(no such step in this tree)', 'extendOffset', ['total_bytes'], 'Int', '(0 : Int)')
-        add('(no such step in this tree)', 'rangeEndStep', ['range_end', 'offset', 'length'], 'Int', 'range_end')
-    else:
-        if len(ext_ifs) != 1 or ext_ifs[0].orelse:
-            raise T.Untranslatable('_SFTPFileCopier.run: unrecognised use of range_end')
-        extends = True
-        wcalls = [c for c in _walk_sorted(ext_ifs[0], ast.Call)
-                  if isinstance(c.func, ast.Attribute) and c.func.attr == 'write']
-        if len(wcalls) != 1 or ast.unparse(wcalls[0].func.value) != 'self._dst' or len(wcalls[0].args) != 2 or \
-                ast.unparse(wcalls[0].args[0]) != "b'\\x00'":
-            raise T.Untranslatable("_SFTPFileCopier.run: `await self._dst.write(b'\\0', offset)` expected")
-        add('`if self._sparse and range_end < self._total_bytes` (source ends in a hole)', 'extendCond',
-            ['sparse', 'range_end', 'total_bytes'], 'Prop', cond(ext_ifs[0].test, env), bools=('sparse',))
-        add('offset of the zero byte that gives the destination its full length', 'extendOffset',
-            ['total_bytes'], 'Int', expr(wcalls[0].args[1], env))
-        steps = [a for a in _walk_sorted(cr, ast.Assign) if ast.unparse(a.targets[0]) == 'range_end']
-        if len(steps) != 3 or ast.unparse(steps[0].value) != '0':
-            raise T.Untranslatable('_SFTPFileCopier.run: range_end = 0 and one update per loop expected')
-        bodies = {expr(a.value, env) for a in steps[1:]}
-        if len(bodies) != 1:
-            raise T.Untranslatable('_SFTPFileCopier.run: the two range_end updates differ')
-        add('`range_end = max(range_end, offset + length)`', 'rangeEndStep', ['range_end', 'offset', 'length'],
-            'Int', bodies.pop())
-    info['copier_extends_sparse'] = extends
+    try:
+        # (a) `_SFTPFileReader.run_task`: `if not data: raise ...` before the return
+        rt = T.find_def(tree, '_SFTPFileReader.run_task')
+        ifs = _walk_sorted(rt, ast.If)
+        rcall = _call_named(rt, 'read')
+        rpo, rps = params(rt)
+        if [ast.unparse(a) for a in rcall.args] != ['self._handle', rpo, rps]:
+            raise T.Untranslatable('_SFTPFileReader.run_task: read(handle, offset, size) expected')
+        rdatas = [a for a in _walk_sorted(rt, ast.Assign) if isinstance(a.value, ast.Await) and a.value.value is rcall
+                  and isinstance(a.targets[0], ast.Tuple) and len(a.targets[0].elts) == 2]
+        if len(rdatas) != 1:
+            raise T.Untranslatable('_SFTPFileReader.run_task: `data, _ = await self._handler.read(...)` expected')
+        rvd = ast.unparse(rdatas[0].targets[0].elts[0])
+        renv = {rvd: 'len_data', f'len({rvd})': 'len_data', rps: 'size'}     # bytes are true when non-empty
+        if not ifs:
+            rejects = False
+            add('(no such check in this tree)', 'rejectCond', ['len_data', 'size'], 'Prop', 'False')
+        elif len(ifs) == 1 and len(ifs[0].body) == 1 and isinstance(ifs[0].body[0], ast.Raise) and \
+                not ifs[0].orelse and ifs[0].lineno > rdatas[0].lineno:
+            rejects = True
+            add('`if not data and size: raise SFTPFailure(...)` (an empty reply to a non-empty request)',
+                'rejectCond', ['len_data', 'size'], 'Prop', cond(ifs[0].test, renv))
+            exc_name = ast.unparse(ifs[0].body[0].exc.func) if isinstance(ifs[0].body[0].exc, ast.Call) else ''
+            if exc_name not in ('SFTPFailure', 'SFTPBadMessage', 'SFTPError', 'OSError'):
+                raise T.Untranslatable('_SFTPFileReader.run_task: the check raises something `iter` does not collect')
+        else:
+            raise T.Untranslatable('_SFTPFileReader.run_task: unrecognised conditional')
+        info['reader_rejects_empty'] = rejects
+        # (b) `_SFTPFileCopier.run`: extend a sparse destination whose source ends in a hole
+        ext_ifs = [i for i in _walk_sorted(cr, ast.If) if 'range_end' in ast.unparse(i.test)]
+        env = {'self._sparse': '?sparse', 'range_end': 'range_end', 'self._total_bytes': 'total_bytes',
+               'offset': 'offset', 'length': 'length', 'self._offset': 'offset', 'self._bytes_left': 'length'}
+        if not ext_ifs:
+            extends = False
+            if 'range_end' in ast.unparse(cr):
+                raise T.Untranslatable('_SFTPFileCopier.run: range_end is computed but not used in a condition')
+            add('(no such step in this tree)', 'extendCond', ['sparse', 'range_end', 'total_bytes'], 'Prop', 'False',
+                bools=('sparse',))
+            add('(no such step in this tree)', 'extendOffset', ['total_bytes'], 'Int', '(0 : Int)')
+            add('(no such step in this tree)', 'rangeEndStep', ['range_end', 'offset', 'length'], 'Int', 'range_end')
+        else:
+            if len(ext_ifs) != 1 or ext_ifs[0].orelse:
+                raise T.Untranslatable('_SFTPFileCopier.run: unrecognised use of range_end')
+            extends = True
+            wcalls = [c for c in _walk_sorted(ext_ifs[0], ast.Call)
+                      if isinstance(c.func, ast.Attribute) and c.func.attr == 'write']
+            if len(wcalls) != 1 or ast.unparse(wcalls[0].func.value) != 'self._dst' or len(wcalls[0].args) != 2 or \
+                    ast.unparse(wcalls[0].args[0]) != "b'\\x00'":
+                raise T.Untranslatable("_SFTPFileCopier.run: `await self._dst.write(b'\\0', offset)` expected")
+            add('`if self._sparse and range_end < self._total_bytes` (source ends in a hole)', 'extendCond',
+                ['sparse', 'range_end', 'total_bytes'], 'Prop', cond(ext_ifs[0].test, env), bools=('sparse',))
+            add('offset of the zero byte that gives the destination its full length', 'extendOffset',
+                ['total_bytes'], 'Int', expr(wcalls[0].args[1], env))
+            steps = [a for a in _walk_sorted(cr, ast.Assign) if ast.unparse(a.targets[0]) == 'range_end']
+            if len(steps) != 3 or ast.unparse(steps[0].value) != '0':
+                raise T.Untranslatable('_SFTPFileCopier.run: range_end = 0 and one update per loop expected')
+            bodies = {expr(a.value, env) for a in steps[1:]}
+            if len(bodies) != 1:
+                raise T.Untranslatable('_SFTPFileCopier.run: the two range_end updates differ')
+            add('`range_end = max(range_end, offset + length)`', 'rangeEndStep', ['range_end', 'offset', 'length'],
+                'Int', bodies.pop())
+        info['copier_extends_sparse'] = extends
+
+    except Exception as e:      # keep going: the file is written from this tree, then the error is raised
+        errors.append('two optional safety steps (present or not in the tree being checked)' + ': ' + str(e))
 
     # --- default max_requests ----------------------------------------------------------------------
-    bc = T.find_def(tree, 'SFTPClient._begin_copy')
-    env = {'max_requests': 'max_requests', 'block_size': 'block_size',
-           'MAX_SFTP_READ_LEN': f'({consts["MAX_SFTP_READ_LEN"]} : Int)'}
-    mi = _if_with(bc, 'max_requests <=')
-    add('`if max_requests <= 0` in `_begin_copy`', 'copyDefaultCond', ['max_requests'], 'Prop', cond(mi.test, env))
-    add('default `max_requests` of get/put/copy', 'copyDefaultMaxRequests', ['block_size'], 'Int',
-        expr(T.find_assign(mi, 'max_requests').value, env))
-    fi = T.find_def(tree, 'SFTPClientFile.__init__')
-    env = {'max_requests': 'max_requests', 'self.read_len': 'read_len',
-           'MAX_SFTP_READ_LEN': f'({consts["MAX_SFTP_READ_LEN"]} : Int)'}
-    mi = _if_with(fi, 'max_requests <=')
-    inner = [i for i in _walk_sorted(mi, ast.If) if i is not mi]
-    if len(inner) != 1 or ast.unparse(inner[0].test) != 'self.read_len':
-        raise T.Untranslatable('SFTPClientFile.__init__: default max_requests has a new shape')
-    add('default `max_requests` of a file object with a block size', 'fileDefaultMaxRequests', ['read_len'], 'Int',
-        expr(T.find_assign(inner[0], 'max_requests', 0).value, env))
-    add('default `max_requests` of a file object without a block size', 'fileDefaultMaxRequests0', [], 'Int',
-        expr(T.find_assign(inner[0], 'max_requests', 1).value, env))
+    try:
+        bc = T.find_def(tree, 'SFTPClient._begin_copy')
+        env = {'max_requests': 'max_requests', 'block_size': 'block_size',
+               'MAX_SFTP_READ_LEN': f'({consts["MAX_SFTP_READ_LEN"]} : Int)'}
+        mi = _if_with(bc, 'max_requests <=')
+        add('`if max_requests <= 0` in `_begin_copy`', 'copyDefaultCond', ['max_requests'], 'Prop', cond(mi.test, env))
+        add('default `max_requests` of get/put/copy', 'copyDefaultMaxRequests', ['block_size'], 'Int',
+            expr(T.find_assign(mi, 'max_requests').value, env))
+        fi = T.find_def(tree, 'SFTPClientFile.__init__')
+        env = {'max_requests': 'max_requests', 'self.read_len': 'read_len',
+               'MAX_SFTP_READ_LEN': f'({consts["MAX_SFTP_READ_LEN"]} : Int)'}
+        mi = _if_with(fi, 'max_requests <=')
+        inner = [i for i in _walk_sorted(mi, ast.If) if i is not mi]
+        if len(inner) != 1 or ast.unparse(inner[0].test) != 'self.read_len':
+            raise T.Untranslatable('SFTPClientFile.__init__: default max_requests has a new shape')
+        add('default `max_requests` of a file object with a block size', 'fileDefaultMaxRequests', ['read_len'], 'Int',
+            expr(T.find_assign(inner[0], 'max_requests', 0).value, env))
+        add('default `max_requests` of a file object without a block size', 'fileDefaultMaxRequests0', [], 'Int',
+            expr(T.find_assign(inner[0], 'max_requests', 1).value, env))
+
+    except Exception as e:      # keep going: the file is written from this tree, then the error is raised
+        errors.append('default max_requests' + ': ' + str(e))
 
     # --- SFTPClientFile.read / write ---------------------------------------------------------------
-    fr = T.find_def(tree, 'SFTPClientFile.read')
-    env = {'self.read_len': 'read_len', 'size': 'size', 'self._handler.limits.max_read_len': 'max_read_len',
-           'offset': 'offset', 'len(data)': 'len_data'}
-    add('`if self.read_len and size > min(self.read_len, max_read_len)` (parallel read path)', 'readParallelCond',
-        ['read_len', 'max_read_len', 'size'], 'Prop', cond(_if_with(fr, 'self.read_len').test, env))
-    add('`self._offset = offset + len(data)`', 'readNewOffset', ['offset', 'len_data'], 'Int',
-        expr(T.find_assign(fr, 'self._offset').value, env))
-    fw = T.find_def(tree, 'SFTPClientFile.write')
-    env = {'self.write_len': 'write_len', 'datalen': 'datalen', 'offset': 'offset', 'self._appending': '?appending'}
-    add('`if self.write_len and datalen > self.write_len` (parallel write path)', 'writeParallelCond',
-        ['write_len', 'datalen'], 'Prop', cond(_if_with(fw, 'self.write_len').test, env))
-    wo = T.find_assign(fw, 'self._offset').value
-    if not isinstance(wo, ast.IfExp) or ast.unparse(wo.body) != 'None' or ast.unparse(wo.test) != 'self._appending':
-        raise T.Untranslatable('SFTPClientFile.write: `None if self._appending else offset + datalen` expected')
-    add('`offset + datalen` (new position after a non-append write)', 'writeNewOffset', ['offset', 'datalen'], 'Int',
-        expr(wo.orelse, env))
+    try:
+        fr = T.find_def(tree, 'SFTPClientFile.read')
+        env = {'self.read_len': 'read_len', 'size': 'size', 'self._handler.limits.max_read_len': 'max_read_len',
+               'offset': 'offset', 'len(data)': 'len_data'}
+        add('`if self.read_len and size > min(self.read_len, max_read_len)` (parallel read path)', 'readParallelCond',
+            ['read_len', 'max_read_len', 'size'], 'Prop', cond(_if_with(fr, 'self.read_len').test, env))
+        add('`self._offset = offset + len(data)`', 'readNewOffset', ['offset', 'len_data'], 'Int',
+            expr(T.find_assign(fr, 'self._offset').value, env))
+        fw = T.find_def(tree, 'SFTPClientFile.write')
+        env = {'self.write_len': 'write_len', 'datalen': 'datalen', 'offset': 'offset', 'self._appending': '?appending'}
+        add('`if self.write_len and datalen > self.write_len` (parallel write path)', 'writeParallelCond',
+            ['write_len', 'datalen'], 'Prop', cond(_if_with(fw, 'self.write_len').test, env))
+        wo = T.find_assign(fw, 'self._offset').value
+        if not isinstance(wo, ast.IfExp) or ast.unparse(wo.body) != 'None' or ast.unparse(wo.test) != 'self._appending':
+            raise T.Untranslatable('SFTPClientFile.write: `None if self._appending else offset + datalen` expected')
+        add('`offset + datalen` (new position after a non-append write)', 'writeNewOffset', ['offset', 'datalen'], 'Int',
+            expr(wo.orelse, env))
+
+    except Exception as e:      # keep going: the file is written from this tree, then the error is raised
+        errors.append('SFTPClientFile.read / write' + ': ' + str(e))
 
     out = [T.header('C12', [SRC + ' (_SFTPParallelIO, _SFTPFileReader, _SFTPFileWriter, _SFTPFileCopier, '
                                   'SFTPClient._begin_copy, SFTPClientFile)']),
@@ -364,20 +410,27 @@ def generate() -> Tuple[str, Dict[str, Any]]:
            f'def maxSftpReadLen : Int := {consts["MAX_SFTP_READ_LEN"]}',
            f'def maxSftpWriteLen : Int := {consts["MAX_SFTP_WRITE_LEN"]}', '',
            '/-- does `_SFTPFileReader.run_task` turn an empty DATA reply into an error? -/',
-           f'def readerRejectsEmpty : Bool := {T.lean_bool(info["reader_rejects_empty"])}', '',
+           f'def readerRejectsEmpty : Bool := {T.lean_bool(info.get("reader_rejects_empty", False))}', '',
            '/-- does `_SFTPFileCopier.run` extend a sparse destination whose source ends in a hole? -/',
-           f'def copierExtendsSparse : Bool := {T.lean_bool(info["copier_extends_sparse"])}', '']
+           f'def copierExtendsSparse : Bool := {T.lean_bool(info.get("copier_extends_sparse", False))}', '']
     for doc, name, ps, typ, body in defs:
         out.append(f'/-- {doc} -/')
         out.append(f'def {name} {ps} : {typ} :=\n  {body}'.replace('  :', ' :'))
         out.append('')
+    for e in errors:
+        out.append('-- NOT TRANSLATED: ' + e.replace('\n', ' '))
     out.append('end AsyncsshModel.Gen.C12')
+    info['errors'] = errors
     return '\n'.join(out) + '\n', info
 
 
 def translate(ctx: Any) -> Dict[str, Any]:
     text, info = generate()
     path = os.path.join(vlib.LEAN_DIR, 'AsyncsshModel', 'Gen', 'C12.lean')
+    # the file always reflects the tree being checked (never a stale one); what could not be translated is
+    # missing from it, so the theorems about it no longer build, and the error is raised on top of that
     info['changed'] = vlib.write_if_changed(path, text)
     info['file'] = 'lean/AsyncsshModel/Gen/C12.lean'
+    if info['errors']:
+        raise T.Untranslatable('; '.join(info['errors']))
     return info
